@@ -180,6 +180,8 @@ func OfferOf(ch *wire.ClientHello, specMin uint16) Offer {
 	return o
 }
 
+func has13x(o Offer) bool { return o.Has(tls.VersionTLS13) && len(o.Suites13) > 0 }
+
 func (o Offer) Has(v uint16) bool {
 	for _, x := range o.Versions {
 		if x == v {
@@ -232,6 +234,15 @@ func GridFor(o Offer, full bool, rg *rand.Rand) []GridCase {
 	has12 := o.Has(tls.VersionTLS12) && len(o.Suites12) > 0
 	// groups
 	for _, g := range o.Groups {
+		if g == 0x6399 && has13x(o) {
+			// X25519Kyber768Draft00: server side through hook H7, only when a share was sent
+			for _, s := range o.Shares {
+				if s == g {
+					out = append(out, GridCase{Dim: "group13", Val: "6399", Server: base(), Plan: &tls.VerifPlan{ForceGroup: tls.X25519Kyber768Draft00}, WantVersion: tls.VersionTLS13, WantHRR: 0, WantGroup: g})
+				}
+			}
+			continue
+		}
 		if !serverGroups[g] {
 			continue
 		}
